@@ -146,7 +146,8 @@ def _validate_group(args):
     tf = os.path.join(wd, "traces_%s.ndjson" % abs(hash(key)))
     with open(tf, "w") as f:
         for t in traces:
-            f.write(json.dumps({"tid": t["tid"], "evs": t["evs"], "feasible": bool(t["cfg"].get("feasible"))}) + "\n")
+            f.write(json.dumps({"tid": t["tid"], "evs": t["evs"], "feasible": bool(t["cfg"].get("feasible")),
+                                "refused": bool(t["cfg"].get("refused"))}) + "\n")
     cfg = "SPECIFICATION TSpec\nCONSTANTS\n" + "\n".join("  %s = %s" % kv for kv in c.items()) + "\nCHECK_DEADLOCK FALSE\n"
     res = tlc.run_tlc("Trace_TSM", cfg_text=cfg, workers=2, timeout=1800, env={"TRACE_FILE": tf}, name="Trace_TSM", heap="2g")
     return key, res
